@@ -78,6 +78,9 @@ func LoadProgram(repo string) (*Program, error) {
 		if err != nil {
 			return nil, err
 		}
+		for _, pd := range pc.Preds {
+			pd.PkgPath = pk.PkgPath
+		}
 		p.contracts[pk.PkgPath] = pc
 	}
 	p.allFuncs = ssautil.AllFunctions(prog)
@@ -162,6 +165,15 @@ func (p *Program) GlobalFor(v *types.Var) *ssa.Global {
 	}
 	g, _ := sp.Members[v.Name()].(*ssa.Global)
 	return g
+}
+
+func (p *Program) TypesPkg(path string) *types.Package {
+	for _, pk := range p.Pkgs {
+		if pk.PkgPath == path {
+			return pk.Types
+		}
+	}
+	return nil
 }
 
 func (p *Program) FindPred(name string) *PredDecl {
